@@ -2,6 +2,7 @@ package props
 
 import (
 	"crypto/sha1"
+	"encoding/json"
 	"fmt"
 	"math/big"
 	"strconv"
@@ -485,6 +486,169 @@ func genExtension(t *rapid.T, label string, kinds []string, maxRaw int) core.Ext
 		e.Critical = core.BoolP(false)
 	}
 	return e
+}
+
+// cloneExt deep-copies an extension through JSON.
+func cloneExt(e core.Extension) core.Extension {
+	b, _ := json.Marshal(e)
+	var out core.Extension
+	json.Unmarshal(b, &out)
+	return out
+}
+
+// mutateExt returns a copy of e changed by one minimal, certificate-relevant
+// edit (the encoded extension differs): criticality flipped, one raw byte
+// changed, pathLen absent <-> 0, one flag / name / URI / OID added, removed or
+// altered. It is the "near miss" generator for merging and change detection.
+func mutateExt(t *rapid.T, e core.Extension, label string) (core.Extension, string) {
+	m := cloneExt(e)
+	flipCrit := func() (core.Extension, string) {
+		m.Critical = core.BoolP(!e.IsCritical())
+		return m, "critical"
+	}
+	if rapid.IntRange(0, 3).Draw(t, label+"-what") == 0 {
+		return flipCrit()
+	}
+	if m.Raw != nil {
+		switch m.Raw.Kind {
+		case "binary":
+			i := rapid.IntRange(0, len(m.Raw.Bytes)-1).Draw(t, label+"-byte")
+			m.Raw.Bytes[i] ^= byte(rapid.IntRange(1, 255).Draw(t, label+"-xor"))
+		case "null":
+			m.Raw = &core.Raw{Kind: "empty"}
+		default:
+			m.Raw = &core.Raw{Kind: "null"}
+		}
+		return m, "raw"
+	}
+	switch m.Kind {
+	case core.KKU:
+		have := map[string]bool{}
+		for _, f := range m.KU {
+			have[f] = true
+		}
+		f := rapid.SampledFrom(kuNames).Draw(t, label+"-flag")
+		if have[f] {
+			var out []string
+			for _, x := range m.KU {
+				if x != f {
+					out = append(out, x)
+				}
+			}
+			if out == nil {
+				out = []string{}
+			}
+			m.KU = out
+		} else {
+			m.KU = append(m.KU, f)
+		}
+		return m, "content"
+	case core.KSAN:
+		if len(m.SAN) > 0 && rapid.Bool().Draw(t, label+"-alter") {
+			i := rapid.IntRange(0, len(m.SAN)-1).Draw(t, label+"-i")
+			if m.SAN[i].Type == "ip" {
+				m.SAN[i] = core.GN{Type: "dns", Name: m.SAN[i].Name}
+			} else {
+				m.SAN[i].Name += "x"
+			}
+		} else {
+			m.SAN = append(m.SAN, core.GN{Type: "dns", Name: "added.example"})
+		}
+		return m, "content"
+	case core.KBC:
+		bc := *m.BC
+		switch rapid.IntRange(0, 2).Draw(t, label+"-bc") {
+		case 0: // pathLen absent <-> 0
+			if bc.PathLen == nil {
+				bc.PathLen = core.IntP(0)
+			} else if *bc.PathLen == 0 {
+				bc.PathLen = nil
+			} else {
+				bc.PathLen = core.IntP(0)
+			}
+		case 1:
+			if bc.PathLen == nil {
+				bc.PathLen = core.IntP(1)
+			} else {
+				bc.PathLen = core.IntP(*bc.PathLen + 1)
+			}
+		default:
+			was := bc.Ca != nil && *bc.Ca
+			bc.Ca = core.BoolP(!was)
+		}
+		m.BC = &bc
+		return m, "content"
+	case core.KCP:
+		i := rapid.IntRange(0, len(m.CP)-1).Draw(t, label+"-i")
+		switch rapid.IntRange(0, 2).Draw(t, label+"-cp") {
+		case 0:
+			m.CP[i].OID += ".1"
+		case 1:
+			m.CP[i].Qualifiers = append(m.CP[i].Qualifiers, core.Qualifier{Cps: "http://added.example/cps"})
+		default:
+			if len(m.CP[i].Qualifiers) > 0 {
+				q := &m.CP[i].Qualifiers[0]
+				if q.Notice != nil {
+					n := *q.Notice
+					n.Text += "!"
+					q.Notice = &n
+				} else {
+					q.Cps += "/x"
+				}
+			} else {
+				m.CP = append(m.CP, core.Policy{OID: "1.2.3.99"})
+			}
+		}
+		return m, "content"
+	case core.KAIA:
+		if rapid.Bool().Draw(t, label+"-add") {
+			m.AIA = append(m.AIA, "http://added.example/ocsp")
+		} else {
+			m.AIA[0] += "/x"
+		}
+		return m, "content"
+	case core.KAKI:
+		if m.AKI == "hash" {
+			m.AKIBytes = []byte{1, 2, 3, 4}
+		} else {
+			b := append([]byte(nil), m.AKIBytes...)
+			b[0] ^= 0x55
+			m.AKIBytes = b
+		}
+		m.AKI = core.Bin(m.AKIBytes).Text()
+		return m, "content"
+	case core.KEKU:
+		if rapid.Bool().Draw(t, label+"-add") || len(m.EKU) == 1 {
+			m.EKU = append(m.EKU, "1.2.3.4.5")
+		} else {
+			m.EKU = m.EKU[1:]
+		}
+		return m, "content"
+	case core.KADM:
+		a := m.Adm
+		switch rapid.IntRange(0, 3).Draw(t, label+"-adm") {
+		case 0:
+			a.Contents[0].Infos[0].Items[0] += "x"
+		case 1:
+			if a.Authority == nil {
+				a.Authority = &core.GN{Type: "dns", Name: "auth.example"}
+			} else {
+				a.Authority = nil
+			}
+		case 2:
+			a.Contents[0].Infos[0].RegNum += "9"
+		default:
+			if a.Contents[0].Authority != nil && a.Contents[0].Authority.Type != "ip" {
+				kinds := map[string]string{"dns": "mail", "mail": "url", "url": "dns"}
+				a.Contents[0].Authority.Type = kinds[a.Contents[0].Authority.Type]
+			} else {
+				a.Contents[0].Infos[0].OIDs = append(a.Contents[0].Infos[0].OIDs, "1.2.3.77")
+			}
+		}
+		return m, "content"
+	}
+	// SKI hash / ocspNoCheck: only criticality (or the raw form) can change
+	return flipCrit()
 }
 
 var _ = big.NewInt
